@@ -9,6 +9,7 @@ CONSTANTS
   Extra <- Race4
   GFirst = TRUE
   SelDet = FALSE
+  RecSteps = FALSE
   LogOn = TRUE
 VIEW View
 INVARIANT NotBad
